@@ -7,6 +7,7 @@
 (* A piece ("series") is  [id, top, dir, t]:  samples k = 1..Len(t) taken *)
 (* at abscissa t[k] (strictly increasing integers: seconds, or depth) at   *)
 (* grid level top + dir*(k-1), dir = -1 for a recession piece (falling one *)
+(* [dir = 0: a piece whose level does not move; it crosses no grid level]   *)
 (* grid level per sample), +1 for a rising piece.  `id` names the piece    *)
 (* (the code never sees it).  Samples lie exactly on grid levels, so by    *)
 (* the half-open crossing rule of Regrid.tla a falling piece reports the   *)
@@ -25,7 +26,9 @@ NSamples(s) == Len(s.t)
 Crossings(s) ==       \* set of <<level, re-based abscissa>>
     IF s.dir = -1
     THEN {<<s.top - j, s.t[j + 1] - s.t[1]>> : j \in 1..(NSamples(s) - 1)}
-    ELSE {<<s.top + j - 1, s.t[j] - s.t[1]>> : j \in 1..(NSamples(s) - 1)}
+    ELSE IF s.dir = 1
+    THEN {<<s.top + j - 1, s.t[j] - s.t[1]>> : j \in 1..(NSamples(s) - 1)}
+    ELSE {}          \* dir = 0: the level does not move; no grid level is crossed
 LevelsOf(s) == {c[1] : c \in Crossings(s)}
 TimeAt(s, h) == (CHOOSE c \in Crossings(s) : c[1] = h)[2]
 
@@ -143,7 +146,8 @@ SortedIdx(coll) ==
 
 (* order in which head ids enter the dict: pieces in sorted order, each in *)
 (* travel order                                                            *)
-LevelSeq(s) == [j \in 1..(NSamples(s) - 1) |-> IF s.dir = -1 THEN s.top - j ELSE s.top + j - 1]
+LevelSeq(s) == IF s.dir = 0 THEN <<>>
+               ELSE [j \in 1..(NSamples(s) - 1) |-> IF s.dir = -1 THEN s.top - j ELSE s.top + j - 1]
 RECURSIVE Dedup(_, _)
 Dedup(seq, seen) ==
     IF seq = <<>> THEN <<>>
@@ -190,8 +194,10 @@ CodePin(coll) ==
         r == MaxS({q \in 1..Len(order) : order[q] \in CodeMembers(coll)})
     IN  order[r]
 
+(* (a piece that crosses no level is in no group of the code: it is left out) *)
 ComponentsEqualDeclarative(coll) ==
-    {g.members : g \in {CodeGroups(coll)[q] : q \in 1..Len(CodeGroups(coll))}} = Components(coll)
+    {g.members : g \in {CodeGroups(coll)[q] : q \in 1..Len(CodeGroups(coll))}}
+        = {C \in Components(coll) : HeadsOf(coll, C) # {}}
 
 CodeAgreesWithDeclarative(coll) ==
     Judged(coll) =>
